@@ -7,6 +7,7 @@ correspondence run; the theorems below are about the model's reader/writer pair.
 import Astits.Proofs.Layout
 import Astits.Proofs.PacketRTCanon
 import Astits.Props.C04
+import Astits.Proofs.SpecEq.TS
 namespace Astits.C11
 
 /-- the three header bytes: every PID (2^13), counter (16), scrambling value (4) and flag combination
@@ -215,5 +216,102 @@ example : (writePacket exPkt2 188).isOk = true := by decide +kernel
 example : normalise exPkt2 = { exPkt2 with adaptationField := some { length := 2, spliceCountdown := 200, hasSplicingCountdown := true } } := by
   decide +kernel
 
+
+/-! ## W1 — the writer emits exactly the standard's layout: `writePacket` = the independent reference encoder
+
+`Spec.tsEncode` (Astits/Spec/TS.lean) transcribes ISO/IEC 13818-1 tables 2-2 and 2-6 with the bit-serial field encoder
+`Spec.enc`; the theorems below replace the case-by-case comparison of the correspondence run by a proof for every
+packet.  Helper development: Astits/Proofs/SpecEq/{Enc,TS}.lean. -/
+
+open Astits.SpecEq
+
+/-- adaptation field extension, every flag combination (only guard: an announced DTS_next_AU is not negative) -/
+theorem afext_eq_spec (e : PacketAdaptationExtensionField)
+    (hss : e.hasSeamlessSplice = true → 0 ≤ (e.dtsNextAccessUnit.getD default).base) :
+    afExtBytes e = Spec.enc (Spec.afExtFields e) := (afExt_eq e hss).symm
+
+/-- adaptation field, every flag combination, stuffing included -/
+theorem af_eq_spec (a : PacketAdaptationField) (h1 : a.isOneByteStuffing = false) (h : AFAgree a) (hsm : afSize a < 256) :
+    afBytes a = Spec.afEncode a := (af_eq a h1 h hsm).symm
+
+/-- **W1** (exact predicate): on every packet satisfying `SpecEq.TSAgree` — announced parts present, delivered
+`length`, non-negative `int64` values, TransportPrivateDataLength = length of the data, exactly 188 bytes —
+`writePacket` succeeds and emits exactly the reference encoding.  No upper bound on any field is needed: both sides mask
+an over-wide value to its field width in the same way. -/
+theorem writePacket_eq_tsEncode (p : Packet) (h : TSAgree p) : writePacket p 188 = .ok (Spec.tsEncode p) :=
+  writePacket_eq_spec p h
+
+/-- **W1** under the predicates of `packet_roundtrip_exact`: a well-formed packet in the demuxer's delivered form whose
+header, adaptation field and payload are exactly 188 bytes -/
+theorem writePacket_eq_tsEncode_wf (p : Packet) (h : PacketWF p) (hc : PacketCanon p) (hx : PacketExact p) :
+    writePacket p 188 = .ok (Spec.tsEncode p) :=
+  writePacket_eq_spec p (tsAgree_of_wf_canon p h hc hx)
+
+/-- for a packet with a payload, `PacketExact` is the `PacketFull` of `packet_roundtrip`; a packet without payload must
+fill its 188 bytes with the adaptation field (adaptation_field_length 183), as ISO 13818-1 requires -/
+theorem packetExact_of_full (p : Packet) (hf : PacketFull p) (hp : p.header.hasPayload = true) : PacketExact p := hf hp
+
+/-- hence the reference bytes parse back to the packet -/
+theorem parse_tsEncode (p : Packet) (h : PacketWF p) (hc : PacketCanon p) (hx : PacketExact p) :
+    (parsePacket none).val (Spec.tsEncode p) = .ok p :=
+  packet_roundtrip_exact p h (fun _ => hx) hc _ (writePacket_eq_tsEncode_wf p h hc hx)
+
+/-! ### non-vacuity, and the excluded points evaluated -/
+
+theorem exPkt_exact : PacketExact exPkt := by unfold PacketExact; decide +kernel
+
+example : TSAgree exPkt := tsAgree_of_wf_canon exPkt exPkt_wf exPkt_canon exPkt_exact
+example : writePacket exPkt 188 = .ok (Spec.tsEncode exPkt) :=
+  writePacket_eq_tsEncode_wf exPkt exPkt_wf exPkt_canon exPkt_exact
+/-- … and the reference bytes are the expected literal ones -/
+example : Spec.tsEncode exPkt = exBytes := by decide +kernel
+
+def hdrAFOnly : PacketHeader :=
+  { continuityCounter := 3, hasAdaptationField := true, hasPayload := false, payloadUnitStartIndicator := false, pid := 0x100, transportErrorIndicator := false, transportPriority := false, transportScramblingControl := 0 }
+
+/-- over-wide header values are NOT excluded: `TSAgree` holds and both sides mask (pid 8197 ↦ 5, counter 23 ↦ 7, scrambling 5 ↦ 1) -/
+def exWide : Packet :=
+  { adaptationField := none
+    header := { hdrAFOnly with hasAdaptationField := false, hasPayload := true, pid := 8197, continuityCounter := 23, transportScramblingControl := 5 }
+    payload := List.replicate 184 7 }
+example : TSAgree exWide := ⟨fun h => absurd h (by decide), by decide +kernel, fun h => absurd h (by decide)⟩
+example : (Spec.tsEncode exWide).take 4 = [0x47, 0x00, 0x05, 0x57] := by decide +kernel
+
+def differs (r : Res Bytes) (bs : Bytes) : Bool := match r with | .ok b => decide (b ≠ bs) | _ => true
+
+/-- excluded point 1: a NEGATIVE splice countdown (the Go field is `int`, documented "two's complement signed; may be
+negative").  The writer emits `uint8(-1) = 0xff` — the standard's 8-bit tcimsbf value — while the reference encoder reads
+the value with `Int.toNat` and writes 0x00.  Here the deviation is in the reference encoder; the parser, in turn, never
+delivers a negative value (it returns 255). -/
+def exNegSplice : Packet :=
+  { adaptationField := some { length := 183, stuffingLength := 181, spliceCountdown := -1, hasSplicingCountdown := true }, header := hdrAFOnly, payload := [] }
+example : differs (writePacket exNegSplice 188) (Spec.tsEncode exNegSplice) = true := by decide +kernel
+example : (match writePacket exNegSplice 188 with | .ok b => b.getD 6 0 | _ => 0) = 0xff ∧ (Spec.tsEncode exNegSplice).getD 6 0 = 0 := by
+  decide +kernel
+
+/-- excluded point 2: a negative PCR (not a value of the 33 + 9 bit field): writer = low bits of the two's complement
+(all ones), reference = 0 -/
+def exNegPCR : Packet :=
+  { adaptationField := some { length := 183, stuffingLength := 176, pcr := some { base := -1, extension := -1 }, hasPCR := true }, header := hdrAFOnly, payload := [] }
+example : differs (writePacket exNegPCR 188) (Spec.tsEncode exNegPCR) = true := by decide +kernel
+
+/-- excluded point 3: TransportPrivateDataLength ≠ length of the data: the writer trusts the length FIELD (writes 0 and no
+data, while `calcPacketAdaptationFieldLength` counted `len(TransportPrivateData)`, so the packet is completed with 0xff
+after the adaptation field), the reference writes the data -/
+def exPrivLen : Packet :=
+  { adaptationField := some { length := 183, stuffingLength := 178, transportPrivateData := [1, 2, 3], transportPrivateDataLength := 0, hasTransportPrivateData := true }, header := hdrAFOnly, payload := [] }
+example : differs (writePacket exPrivLen 188) (Spec.tsEncode exPrivLen) = true := by decide +kernel
+
+/-- excluded point 4: fewer than 188 bytes: the writer pads with 0xff AFTER the payload, the reference does not pad -/
+def exShort : Packet :=
+  { adaptationField := none, header := { hdrAFOnly with hasAdaptationField := false, hasPayload := true }, payload := [1, 2, 3] }
+example : (match writePacket exShort 188 with | .ok b => b.length | _ => 0) = 188 ∧ (Spec.tsEncode exShort).length = 7 := by
+  decide +kernel
+
+/-- excluded point 5: a stale `length` (not the delivered form): the reference takes adaptation_field_length from the value,
+the writer recomputes it -/
+def exStaleLen : Packet :=
+  { adaptationField := some { length := 7, stuffingLength := 182 }, header := hdrAFOnly, payload := [] }
+example : differs (writePacket exStaleLen 188) (Spec.tsEncode exStaleLen) = true := by decide +kernel
 
 end Astits.C11
